@@ -420,7 +420,27 @@ func (fr *frame) evalBuiltin(st *State, call *ast.CallExpr, name string) []*Valu
 		// value of recover(): nil unless panicking; handled by the defer machinery
 		return []*Value{fr.fc.recoverValue(st, fr.typeOf(call))}
 	case "copy":
-		panic(unsupported("copy()"))
+		// copy(dst, src): the first min(len(dst), len(src)) elements of dst's backing array take src's values
+		// (dst and src are distinct arrays or the same array at the same offset: slices carry no offset here)
+		dt, ok1 := fr.typeOf(call.Args[0]).Underlying().(*types.Slice)
+		_, ok2 := fr.typeOf(call.Args[1]).Underlying().(*types.Slice)
+		if !ok1 || !ok2 {
+			panic(unsupported("copy() from a string"))
+		}
+		dst := fr.eval(st, call.Args[0])
+		src := fr.eval(st, call.Args[1])
+		n := Ite(Le(dst.Len, src.Len), dst.Len, src.Len)
+		for _, l := range leavesOf(dt.Elem()) {
+			cls := elemClass(dt.Elem()) + l.Path
+			as := SArray(SInt, l.Sort)
+			noteClass(cls, as, false)
+			h := st.heapArr(cls, as)
+			fresh := mkVar(freshName("copy"), as)
+			k := mkBVar(freshName("k"), SInt)
+			st.assume(Forall([]*Term{k}, Eq(Select(fresh, k), Ite(And(Le(mkInt(0), k), Lt(k, n)), Select(Select(h, src.Arr), k), Select(Select(h, dst.Arr), k)))))
+			st.heap[cls] = Store(h, dst.Arr, fresh)
+		}
+		return []*Value{scalar(n, types.Typ[types.Int])}
 	case "close":
 		fr.eval(st, call.Args[0])
 		return nil
